@@ -191,6 +191,8 @@ class Check(PropertyCheck):
         reset_at = rng.randint(1, max(1, gen.num_ops(jobs) - 1)) if rng.random() < 0.35 else None
         while not tr.done():
             if rng.random() < 0.05:
+                lines.append("badseq")     # a failed Schedule.from_job_sequences somewhere else in the process
+            if rng.random() < 0.05:
                 lines.append("xform")      # instance transformations (they return new instances) applied to the live dispatcher's instance
             blind = inject() if rng.random() < 0.6 else None
             j, p, m = gen.gen_valid_request(rng, tr)
